@@ -29,7 +29,7 @@ CA = ("sym", "{a1 as Char.0}")
 CB = ("sym", "{a2 as Char.0}")
 
 
-@rule("CLASS-OPS", ["C09", "C01", "C20"], floor=12)
+@rule("CLASS-OPS", ["C09", "C01", "C20", "C10"], floor=12)
 def class_ops(ctx):
     """union / difference / complement / build of CharacterClassBuilder evaluate to a∪b, a−b, ¬a, a for every
     combination of the Char / inversion-list representations."""
@@ -122,6 +122,10 @@ def class_ops(ctx):
                 if r == SX.EMPTY:
                     good += 1
         out.append(ok("from_str") if good == 2 else bad("from_str", "from_str(s) must add exactly each char of s to an empty builder", b.loc()))
+    # complement() and build() also carry every \\P{..}, \\D \\W \\S \\I \\C and every built escape class: they bear on C10
+    for i in out:
+        if not i.key.startswith(("complement", "build")):
+            i.props = ["C09", "C01", "C20"]
     return out
 
 
